@@ -314,7 +314,6 @@ impl<'data> ProguardCache<'data> {
         // At this point, we know how many members/members-by-params each class has because we kept count,
         // but we don't know where each class's entries start. We'll rectify that below.
 
-        let mut writer = watto::Writer::new(writer);
         let string_bytes = string_table.into_bytes();
 
         let num_members = classes.values().map(|c| c.class.members_len).sum::<u32>();
@@ -333,7 +332,7 @@ impl<'data> ProguardCache<'data> {
         };
 
         writer.write_all(header.as_bytes())?;
-        writer.align_to(8)?;
+        write_padding(writer, header.as_bytes().len())?;
 
         let mut members = Vec::new();
         let mut members_by_params = Vec::new();
@@ -350,13 +349,16 @@ impl<'data> ProguardCache<'data> {
             );
             writer.write_all(c.class.as_bytes())?;
         }
-        writer.align_to(8)?;
+        write_padding(
+            writer,
+            header.num_classes as usize * std::mem::size_of::<Class>(),
+        )?;
 
         writer.write_all(members.as_bytes())?;
-        writer.align_to(8)?;
+        write_padding(writer, members.as_bytes().len())?;
 
         writer.write_all(members_by_params.as_bytes())?;
-        writer.align_to(8)?;
+        write_padding(writer, members_by_params.as_bytes().len())?;
 
         writer.write_all(&string_bytes)?;
 
@@ -407,6 +409,16 @@ impl<'data> ProguardCache<'data> {
     pub(crate) fn read_string(&self, offset: u32) -> Result<&'data str, watto::ReadStringError> {
         StringTable::read(self.string_bytes, offset as usize)
     }
+}
+
+/// Pads a section of `section_len` bytes (which starts 8-byte aligned) with zero
+/// bytes up to the next multiple of 8.
+///
+/// This uses `write_all`, so a sink that accepts fewer bytes than requested per
+/// call cannot truncate the padding.
+fn write_padding<W: Write>(writer: &mut W, section_len: usize) -> std::io::Result<()> {
+    const PADDING: [u8; 8] = [0; 8];
+    writer.write_all(&PADDING[..(8 - section_len % 8) % 8])
 }
 
 /// A class that is currently being constructed in the course of writing a [`ProguardCache`].
